@@ -47,7 +47,15 @@ def _gen_fresh(r, depth, max_depth, pool):
     if k < 0.52:
         return tuple(gen_value(r, depth + 1, max_depth) for _ in range(r.randint(0, 3)))
     if k < 0.67:
-        return {kk: gen_value(r, depth + 1, max_depth) for kk in r.sample(KEYS, r.randint(0, 3))}
+        d_ = {kk: gen_value(r, depth + 1, max_depth) for kk in r.sample(KEYS, r.randint(0, 3))}
+        if r.random() < 0.2:
+            # a story's own dict that uses the keys the save format reserves for object records
+            for kk in r.sample(["_type", "_data", "_module", "_value", "_custom"], r.randint(1, 3)):
+                d_[kk] = r.choice(["weapon", "Card", "string_repr", "dict"]) if r.random() < 0.5 else gen_value(r, depth + 1, max_depth)
+            items_ = list(d_.items())
+            r.shuffle(items_)
+            d_ = dict(items_)
+        return d_
     if k < 0.70:
         return vclasses.Rune(r.choice(STR), r.randint(0, 9))
     if k < 0.725:
